@@ -145,7 +145,7 @@ Proof. exact setup_assertion_fixed_every_outcome. Qed.
 Print Assumptions C07_suggested_fix_every_outcome.
 
 Example C07_suggested_fix_on_witness :
-  setup_assertion_fixed no_rx no_ln w_pol w_ident w_sp w_md true = Asserted [(s2l "givenName", [s2l "Anna"])].
+  setup_assertion_fixed no_rx no_ln w_pol w_ident w_sp w_md true = Asserted [].
 Proof. vm_compute. reflexivity. Qed.
 Print Assumptions C07_suggested_fix_on_witness.
 
